@@ -12,6 +12,7 @@ Nothing from /repo is imported or executed: sources are read as text and parsed.
 from __future__ import annotations
 
 import ast
+import copy
 import hashlib
 import pickle
 import io
@@ -341,9 +342,143 @@ class Repo:
                 body[k] = i0[name][1]
                 self.normal_form_rejected = getattr(self, 'normal_form_rejected', []) + [(m.path, name, sorted(bad))]
 
+    def _flatten_module_attributes(self, mods):
+        """`from . import _checks` ... `_checks.valid(x)` is `from ._checks import valid` ... `valid(x)`: a module of the
+        package that is imported as a whole and only read through attributes that are its own top-level definitions (and
+        whose names mean nothing else in the importing module) is imported name by name."""
+        for m in mods:
+            for local, (mod, sym) in list(m.imports.items()):
+                target = (mod + '.' + sym) if sym else mod
+                if sym is None and '.' in mod and local == mod.split('.')[0]:
+                    continue                    # `import a.b` binds `a`
+                tm = self.modules.get(target)
+                if tm is None or tm is m or tm.path.endswith('__init__.py'):
+                    continue
+                top = set()
+                for st in tm.tree.body:
+                    if isinstance(st, ast.FunctionDef):
+                        top.add(st.name)
+                    elif isinstance(st, ast.Assign) and len(st.targets) == 1 and isinstance(st.targets[0], ast.Name) \
+                            and isinstance(st.value, ast.Constant):
+                        top.add(st.targets[0].id)
+                rebound = sum(1 for n in ast.walk(tm.tree) if isinstance(n, ast.Name) and isinstance(n.ctx, (ast.Store, ast.Del)) and n.id in top)
+                if rebound != sum(1 for st in tm.tree.body if isinstance(st, ast.Assign) and len(st.targets) == 1
+                                  and isinstance(st.targets[0], ast.Name) and st.targets[0].id in top):
+                    continue                    # a constant of that module is assigned again somewhere
+                if any(isinstance(n, ast.Global) for n in ast.walk(tm.tree)):
+                    continue
+                uses = [n for n in ast.walk(m.tree) if isinstance(n, ast.Attribute) and isinstance(n.value, ast.Name)
+                        and n.value.id == local]
+                bases = {id(n.value) for n in uses}
+                if not uses or any(isinstance(n, ast.Name) and n.id == local and id(n) not in bases for n in ast.walk(m.tree)) \
+                        or any(isinstance(n, ast.arg) and n.arg == local for n in ast.walk(m.tree)) \
+                        or any(not isinstance(n.ctx, ast.Load) for n in uses):
+                    continue                    # the module object is used as a value / rebound / shadowed
+                attrs = {n.attr for n in uses}
+                names_in_m = {n.id for n in ast.walk(m.tree) if isinstance(n, ast.Name)} \
+                    | {n.arg for n in ast.walk(m.tree) if isinstance(n, ast.arg)} \
+                    | {n.name for n in ast.walk(m.tree) if isinstance(n, (ast.FunctionDef, ast.ClassDef))} \
+                    | {(a.asname or a.name).split('.')[0] for n in ast.walk(m.tree) if isinstance(n, (ast.Import, ast.ImportFrom))
+                       for a in n.names} \
+                    | {k.arg for n in ast.walk(m.tree) if isinstance(n, ast.Call) for k in n.keywords if k.arg}
+                if not attrs <= top or attrs & names_in_m:
+                    continue
+
+                class T(ast.NodeTransformer):
+                    def visit_Attribute(self, node):
+                        self.generic_visit(node)
+                        if isinstance(node.value, ast.Name) and node.value.id == local and id(node.value) in bases:
+                            return ast.copy_location(ast.Name(id=node.attr, ctx=ast.Load()), node)
+                        return node
+                T().visit(m.tree)
+                imp = ast.ImportFrom(module=target, names=[ast.alias(name=a, asname=None) for a in sorted(attrs)], level=0)
+                pos = 0
+                while pos < len(m.tree.body) and (
+                        (isinstance(m.tree.body[pos], ast.Expr) and isinstance(m.tree.body[pos].value, ast.Constant))
+                        or (isinstance(m.tree.body[pos], ast.ImportFrom) and m.tree.body[pos].module == '__future__')):
+                    pos += 1
+                ast.copy_location(imp, m.tree.body[0])
+                m.tree.body.insert(pos, imp)
+                ast.fix_missing_locations(m.tree)
+                for a in attrs:
+                    m.imports[a] = (target, a)
+
+    def _imported_constants(self, mods):
+        """`from pyspike.generic import _UNBOUNDED` where that module binds the name once, at top level, to a numeric literal:
+        the name is that literal in the importing module too (N29 across modules)."""
+        consts: Dict[str, Dict[str, ast.expr]] = {}
+        for m in mods:
+            counts: Dict[str, int] = {}
+            for n in ast.walk(m.tree):
+                if isinstance(n, ast.Name) and isinstance(n.ctx, (ast.Store, ast.Del)):
+                    counts[n.id] = counts.get(n.id, 0) + 1
+                elif isinstance(n, (ast.Global, ast.Nonlocal)):
+                    for g_ in n.names:
+                        counts[g_] = counts.get(g_, 0) + 2
+                elif isinstance(n, (ast.FunctionDef, ast.ClassDef)):
+                    counts[n.name] = counts.get(n.name, 0) + 2
+                elif isinstance(n, ast.alias):
+                    k_ = (n.asname or n.name).split('.')[0]
+                    counts[k_] = counts.get(k_, 0) + 2
+                elif isinstance(n, ast.arg):
+                    counts[n.arg] = counts.get(n.arg, 0) + 2
+            out = {}
+            for st in m.tree.body:
+                if isinstance(st, ast.Assign) and len(st.targets) == 1 and isinstance(st.targets[0], ast.Name) \
+                        and counts.get(st.targets[0].id) == 1:
+                    v = st.value
+                    if isinstance(v, ast.UnaryOp) and isinstance(v.op, ast.UAdd):
+                        v = v.operand
+                    w = v.operand if isinstance(v, ast.UnaryOp) and isinstance(v.op, ast.USub) else v
+                    if isinstance(w, ast.Constant) and isinstance(w.value, (int, float)) and not isinstance(w.value, bool):
+                        out[st.targets[0].id] = v
+                    elif isinstance(v, ast.Constant) and (isinstance(v.value, (bool, str)) or v.value is None) \
+                            and not st.targets[0].id.startswith('__'):
+                        out[st.targets[0].id] = v
+            consts[m.name] = out
+            if out:
+                # ... and in the module itself (N29, here also for True / False / None / text: helpers that other modules
+                # inline carry the literal, not a name of this module)
+                class T0(ast.NodeTransformer):
+                    def visit_Name(self, node, out=out):
+                        if isinstance(node.ctx, ast.Load) and node.id in out:
+                            return ast.copy_location(copy.deepcopy(out[node.id]), node)
+                        return node
+                for st in m.tree.body:
+                    if isinstance(st, (ast.FunctionDef, ast.ClassDef)):
+                        T0().visit(st)
+                ast.fix_missing_locations(m.tree)
+        for m in mods:
+            sub = {}
+            for local, (mod, sym) in m.imports.items():
+                if sym and sym in consts.get(mod, {}):
+                    # bound by that one import only, nowhere else in this module
+                    n_bind = sum(1 for n in ast.walk(m.tree) if (isinstance(n, ast.Name) and n.id == local and not isinstance(n.ctx, ast.Load))
+                                 or (isinstance(n, ast.arg) and n.arg == local)
+                                 or (isinstance(n, (ast.FunctionDef, ast.ClassDef)) and n.name == local)
+                                 or (isinstance(n, (ast.Global, ast.Nonlocal)) and local in n.names))
+                    n_imp = sum(1 for n in ast.walk(m.tree) if isinstance(n, (ast.Import, ast.ImportFrom))
+                                for a in n.names if (a.asname or a.name).split('.')[0] == local)
+                    if n_bind == 0 and n_imp == 1:
+                        sub[local] = consts[mod][sym]
+            if not sub:
+                continue
+
+            class T(ast.NodeTransformer):
+                def visit_Name(self, node):
+                    if isinstance(node.ctx, ast.Load) and node.id in sub:
+                        return ast.copy_location(copy.deepcopy(sub[node.id]), node)
+                    return node
+            T().visit(m.tree)
+            ast.fix_missing_locations(m.tree)
+
     def _normalize(self):
         from . import normalize
         mods = [m for m in self.modules.values() if m.name != 'setup']
+        for m in mods:
+            normalize._explicit_checks(m.tree)        # (before helpers are collected: they are inlined in this form)
+        self._flatten_module_attributes(mods)
+        self._imported_constants(mods)
         normalize.compute_mutators([m.tree for m in mods])
         # (a module whose own name starts with an underscore is private as a whole: all its small functions are helpers)
         helpers = {m.name: normalize._module_helpers(m.tree, backend='.cython.' in m.name,
@@ -425,6 +560,7 @@ class Repo:
             key = hashlib.sha1()
             key.update(_NORMALIZE_DIGEST.encode())
             key.update(m.source.encode())
+            key.update(ast.dump(m.tree).encode())      # (module attributes already flattened)
             key.update(m.name.encode())
             key.update(repr(sorted((k, sorted(v)) for k, v in normalize.MUTATORS.items())).encode())
             key.update(repr(sorted(normalize.KNOWN_FUNCS)).encode())
